@@ -85,6 +85,7 @@ class Schema:
         self.dialects = []    # list of (None | list of origin names)   None = no no_copy_collections attribute
         self.tvars = []       # constrained TypeVars: tuple of member types
         self.nwrap = 0        # counter for named wrappers (NewType / alias / bound TypeVar)
+        self.td_present = {}  # TypedDict index -> keys present in every value of this case (optional keys: decided once)
         self.model = True     # every type is inside the Coq grammar
 
 
@@ -180,6 +181,8 @@ def gen_ty0(rng, sch: Schema, depth: int, lower_classes: list, extras: bool):
         if t[0] in ("opt", "any", "union"):
             return t
         return ("opt", t)
+    if r < 0.485:
+        return ("lit", tuple(rng.sample([1, 2, 3, "a", "b"], 2)))
     if r < 0.50:
         return gen_bare(rng)
     if r < 0.56:
@@ -224,11 +227,11 @@ def gen_ty0(rng, sch: Schema, depth: int, lower_classes: list, extras: bool):
     if r < 0.97 and lower_classes:
         return ("dc", rng.choice(lower_classes))
     if extras:
-        sch.model = False
         q = rng.random()
         if q < 0.3:
             fs = [(f"k{i}", gen_ty(rng, sch, depth - 1, lower_classes, extras), rng.random() < 0.7)
                   for i in range(rng.randint(1, 3))]
+            fs.sort(key=lambda f: not f[2])      # required keys first: the order the library writes them in
             fs = [(a, add_wrapper(sch, b, rng.choice(["readonly", "tdreq" if r else "tdnotreq"]))
                    if rng.random() < 0.4 and not wrapper_of(b) else b, r) for a, b, r in fs]
             sch.tds.append(fs)
@@ -274,6 +277,17 @@ def container_member(rng, sch, lower_classes):
     return ("dc", rng.choice(lower_classes))
 
 
+_UNION_ORDER = {}
+
+
+def canon_union(members):
+    """typing caches parametrised generics under an order-insensitive equality of Union arguments: once
+    Tuple[Union[A, B], ...] exists in the process, Tuple[Union[B, A], ...] evaluates to the SAME object (args in the first
+    order).  The schema text and the Coq term must therefore use one member order per member set, process wide."""
+    key = frozenset(repr(strip_wrappers(m)) for m in members)
+    return _UNION_ORDER.setdefault(key, tuple(members))
+
+
 def gen_union_containers(rng, sch, lower_classes):
     """unions with container members (the decode side tells members apart by trying them in order; scalars by
     exact type): 1-2 containers + 0-2 scalars (+ None = Optional-of-union), as Union or as TypeVar constraints"""
@@ -294,10 +308,12 @@ def gen_union_containers(rng, sch, lower_classes):
     if rng.random() < 0.2 and ("atom", "none") not in members:
         sch.tvars.append(tuple(members))
         return ("union", tuple(members), "tvar", len(sch.tvars) - 1)
-    return ("union", tuple(members))
+    if len({repr(strip_wrappers(m)) for m in members}) != len(members):
+        return ("union", tuple(members))
+    return ("union", canon_union(members))
 
 
-def gen_union(rng, sch, depth, lower_classes):
+def gen_union0(rng, sch, depth, lower_classes):
     """unions whose members are told apart by the runtime class / element class of the value"""
     q = rng.random()
     if q < 0.35:
@@ -313,6 +329,11 @@ def gen_union(rng, sch, depth, lower_classes):
     a = ("map", "dict", ("atom", "str"), ("leaf", "date"))
     b = ("map", "dict", ("atom", "str"), ("atom", "int"))
     return ("union", (a, b) if rng.random() < 0.5 else (b, a))
+
+
+def gen_union(rng, sch, depth, lower_classes):
+    u = gen_union0(rng, sch, depth, lower_classes)
+    return ("union", canon_union(u[1]))
 
 
 def gen_nocopy(rng):
@@ -423,6 +444,16 @@ def gen_schema_focus(rng) -> Schema:
             fields.insert(rng.randrange(len(fields) + 1), ("g", t))
         sch.classes.append({"name": f"C{i}", "base": base, "sup": rng.random() < 0.4, "lazy": rng.random() < 0.3,
                             "dialect": (rng.randrange(nd) if rng.random() < 0.5 else None), "fields": fields})
+    if rng.random() < 0.35:
+        # recursive schema: a back edge (to the class itself or an earlier one) behind a list / dict, written as a
+        # forward reference; values are cut off with empty containers
+        src = rng.randrange(ncls)
+        dst = rng.randrange(src + 1)
+        t = ("dc", dst, "fwd")
+        t = ("seq", "list", t) if rng.random() < 0.6 else ("map", "dict", ("atom", "str"), t)
+        sch.classes[src]["fields"].append(("back", t))
+        for k in sch.classes:       # cyclic schemas through plain dataclasses or across different format mixins recurse
+            k["base"] = "dict"      # forever at compile time (RecursionError; reported, not a sharing matter)
     for c in sch.classes:
         add_defaults(rng, c)
     return sch
@@ -482,7 +513,7 @@ def ty_src(t, sch: Schema) -> str:
     if k == "lit":
         return "typing.Literal[" + ", ".join(repr(x) for x in t[1]) + "]"
     if k == "dc":
-        return f"C{t[1]}"
+        return f"'C{t[1]}'" if len(t) > 2 and t[2] == "fwd" else f"C{t[1]}"
     raise ValueError(t)
 
 
@@ -701,13 +732,16 @@ def gen_value_src(rng, t, sch: Schema, depth: int, wire: bool = False) -> str:
         if rng.random() < 0.3 and not NO_NONE[0]:
             return "None"
         return gen_value_src(rng, t[1], sch, depth, wire)
+    if k in ("seq", "map") and depth <= -2 and mentions(t, "dc"):
+        return ("[]" if k == "seq" else "{}")            # recursion cut-off (only plain list / dict carry back edges)
     if k == "seq":
         o = t[1]
         if o in SET_LIKE:
             et = t[2] if t[2] != ("any",) else ("atom", rng.choice(["int", "str"]))    # Any items of a set: hashable ones
             items = distinct_hashables(rng, et, sch, n(), wire)
         else:
-            items = [gen_value_src(rng, t[2], sch, depth - 1, wire) for _ in range(n())]
+            cnt = rng.choice([0, 1, 1]) if t[2][0] == "dc" and len(t[2]) > 2 else n()
+            items = [gen_value_src(rng, t[2], sch, depth - 1, wire) for _ in range(cnt)]
         body = ", ".join(items)
         if wire:
             return f"[{body}]"
@@ -727,15 +761,17 @@ def gen_value_src(rng, t, sch: Schema, depth: int, wire: bool = False) -> str:
         body = ", ".join(items)
         return f"[{body}]" if wire else f"NT{t[1]}({body})"
     if k == "td":
+        if t[1] not in sch.td_present:
+            sch.td_present[t[1]] = [fn for fn, ft, req in sch.tds[t[1]] if req or rng.random() < 0.6]
         parts = []
         for fn, ft, req in sch.tds[t[1]]:
-            if req or rng.random() < 0.6:
+            if fn in sch.td_present[t[1]]:
                 parts.append(f"{fn!r}: " + gen_value_src(rng, ft, sch, depth - 1, wire))
         return "{" + ", ".join(parts) + "}"
     if k == "map":
         o = t[1]
         kt = t[2] if t[2] != ("any",) else ("atom", "str")
-        keys = distinct_hashables(rng, kt, sch, n(), wire)
+        keys = distinct_hashables(rng, kt, sch, rng.choice([0, 1, 1]) if t[3][0] == "dc" and len(t[3]) > 2 else n(), wire)
         if wire:
             keys = [x for x in keys if x != "None"]
         vals = [gen_value_src(rng, t[3], sch, depth - 1, wire) for _ in keys]
@@ -772,19 +808,38 @@ def gen_value_src(rng, t, sch: Schema, depth: int, wire: bool = False) -> str:
     if k == "dc":
         c = sch.classes[t[1]]
         dfl = c.get("defaults", {})
-        keep = [(fn, ft) for fn, ft in c["fields"] if fn not in dfl or rng.random() < 0.5]
         if wire:
-            return "{" + ", ".join(f"{fn!r}: " + gen_value_src(rng, ft, sch, depth - 1, True) for fn, ft in keep) + "}"
-        return c["name"] + "(" + ", ".join(f"{fn}=" + gen_value_src(rng, ft, sch, depth - 1, False) for fn, ft in keep) + ")"
+            if "omit" not in c:        # decided once per case and class: every input of the class lacks these keys
+                c["omit"] = {fn for fn in dfl if rng.random() < 0.5}
+            keep = [(fn, ft) for fn, ft in c["fields"] if fn not in c["omit"]]
+        else:
+            keep = [(fn, ft) for fn, ft in c["fields"] if fn not in dfl or rng.random() < 0.5]
+        srcs = [gen_value_src(rng, ft, sch, depth - 1, wire) for fn, ft in keep]
+        # input aliasing: now and then the very same container object sits in two fields of one instance
+        for j in range(1, len(keep)):
+            for i in range(j):
+                ti, tj = strip_wrappers(keep[i][1]), strip_wrappers(keep[j][1])
+                if (ti == tj and ti[0] in ("seq", "map") and rng.random() < 0.5
+                        and not srcs[i].startswith("(_a") and not srcs[j].startswith("_a")
+                        and srcs[i] not in ("None",) and keep[i][1][0] != "opt"):
+                    ALIAS_N[0] += 1
+                    srcs[j] = f"_a{ALIAS_N[0]}"
+                    srcs[i] = f"(_a{ALIAS_N[0]} := {srcs[i]})"
+                    break
+        if wire:
+            return "{" + ", ".join(f"{fn!r}: {src}" for (fn, ft), src in zip(keep, srcs)) + "}"
+        return c["name"] + "(" + ", ".join(f"{fn}={src}" for (fn, ft), src in zip(keep, srcs)) + ")"
     raise ValueError(t)
 
 
+ALIAS_N = [0]
 PREFER_CONTAINER = [False]    # probes: always exercise the container member of a union
 
 
 def gen_union_value(rng, t, sch, depth, wire):
     if True:
-        m = rng.choice(t[1])
+        cands = [x for x in t[1] if not (NO_NONE[0] and x == ("atom", "none"))] or list(t[1])
+        m = rng.choice(cands)
         conts = [x for x in t[1] if x[0] in ("seq", "map", "tupv", "tup", "dc")]
         if conts and (PREFER_CONTAINER[0] or rng.random() < 0.5):
             m = rng.choice(conts)
@@ -1272,6 +1327,15 @@ def coq_ty(t, sch) -> str:
         return f"(TMap {MAP_ORIGINS[t[1]][2]} {coq_ty(t[2], sch)} {coq_ty(t[3], sch)})"
     if k == "dc":
         return f"(TDC {t[1]})"
+    if k == "lit":
+        if all(isinstance(x, (int, str)) and not isinstance(x, bool) for x in t[1]):
+            return "TLit"
+        raise ValueError("literal outside the model")
+    if k == "td":
+        present = sch.td_present.get(t[1], [fn for fn, _, _ in sch.tds[t[1]]])
+        return "(TRec [" + "; ".join(coq_ty(ft, sch) for fn, ft, _ in sch.tds[t[1]] if fn in present) + "])"
+    if k == "chain":
+        return f"(TComp KChainMap (TRMap {coq_ty(t[1], sch)} {coq_ty(t[2], sch)}))"
     if k == "union":
         return coq_union(t, sch) if WIRE_SIDE_COQ[0] else coq_union_pack(t, sch)
     raise ValueError(t)
@@ -1330,11 +1394,23 @@ def coq_union(t, sch) -> str:
     return "(TUnion [" + "; ".join(coq_ty(m, sch) for m in t[1]) + "])"
 
 
+DEFAULT_KIND = {"list": "(DFresh KList)", "set": "(DFresh KSet)", "collections.deque": "(DFresh KDeque)", "dict": "(DFresh KDict)",
+                "collections.OrderedDict": "(DFresh KOrderedDict)"}
+
+
+def coq_field(c, fn, ft, sch) -> str:
+    """decode side: a defaulted field whose key is absent from the inputs of this case is TAbsent <default>"""
+    if WIRE_SIDE_COQ[0] and fn in c.get("omit", ()):
+        d = c["defaults"][fn]
+        return "(TAbsent DAtom)" if d.startswith("=") else f"(TAbsent {DEFAULT_KIND[d]})"
+    return coq_ty(ft, sch)
+
+
 def coq_classes(sch: Schema) -> str:
     items = []
     for c in sch.classes:
         nc = sch.dialects[c["dialect"]] if c["dialect"] is not None else None
-        fields = "; ".join(coq_ty(ft, sch) for _, ft in field_order(c))
+        fields = "; ".join(coq_field(c, fn, ft, sch) for fn, ft in field_order(c))
         items.append(f"{{| c_sup := {vlib.coq_bool(c['sup'])}; c_nc := {coq_dialect(nc)}; c_fields := [{fields}] |}}")
     return "[" + "; ".join(items) + "]"
 
@@ -1356,6 +1432,8 @@ def coq_value(o, labels: dict, fresh_marker=None, wire_class=None) -> str:
         ci = int(type(o).__name__[1:])
         fs = "; ".join(coq_value(getattr(o, f.name), labels, fresh_marker) for f in _dc.fields(o))
         return f"(VObj {ci} {lab} [{fs}])"
+    if isinstance(o, _c.ChainMap):
+        return f"(VSeq KChainMap {lab} [" + "; ".join(coq_value(m, labels, fresh_marker) for m in o.maps) + "])"
     if isinstance(o, dict):
         kind = KIND_OF_CLASS[type(o).__name__]
         kvs = "; ".join(f"({coq_value(a, labels, fresh_marker)}, {coq_value(b, labels, fresh_marker)})" for a, b in o.items())
@@ -1393,6 +1471,11 @@ def build_case(rng, side: str, depth: int, extras: bool):
     sch = gen_schema_focus(rng) if focus else gen_schema(rng, depth, extras)
     entry = gen_entry(rng, sch, side)
     if focus and entry["api"] == "codec" and rng.random() < 0.75:
+        entry = gen_entry(rng, sch, side)
+    recursive = any(fn == "back" for k in sch.classes for fn, _ in k["fields"])
+    while recursive and (entry["api"] == "codec" or entry["fmt"] is not None):
+        # codecs cannot be built for self-referencing dataclasses at all (AttributeError: 'attrs_...' has no attribute
+        # '__mashumaro_to_dict__' at construction; reported, not a sharing matter): recursive schemas go through the mixin
         entry = gen_entry(rng, sch, side)
     if entry["api"] == "codec":
         # codecs take any top-level type
@@ -1452,11 +1535,11 @@ def union_probe_fields():
              ("map", "dict", ("atom", "str"), ("any",))]
     fields, tvars = [], []
     for c in conts:
-        fields.append(("union", (("atom", "int"), c)))                                                 # field
-        fields.append(("seq", "list", ("union", (("atom", "str"), c))))                                # list item
-        fields.append(("map", "dict", ("atom", "str"), ("union", (("atom", "str"), ("atom", "float"), c))))   # dict value
-        fields.append(("tup", (("union", (c, ("atom", "int"))), ("atom", "str"))))                     # tuple item
-        fields.append(("union", (("atom", "int"), c, ("atom", "none"))))                               # Optional of union
+        fields.append(("union", canon_union((("atom", "int"), c))))                                    # field
+        fields.append(("seq", "list", ("union", canon_union((("atom", "str"), c)))))                   # list item
+        fields.append(("map", "dict", ("atom", "str"), ("union", canon_union((("atom", "str"), ("atom", "float"), c)))))   # dict value
+        fields.append(("tup", (("union", canon_union((c, ("atom", "int")))), ("atom", "str"))))        # tuple item
+        fields.append(("union", canon_union((("atom", "int"), c, ("atom", "none")))))                  # Optional of union
         tvars.append((("atom", "str"), c))
         fields.append(("union", tvars[-1], "tvar", len(tvars) - 1))                                    # TypeVar constraints
     return fields, tvars
@@ -1509,11 +1592,11 @@ def wrapper_probe_cases(rng, side: str):
             sch.dialects = [["list", "dict", "set"]]
             fields = []
             if kind == "td":
-                sch.model = False
                 items = []
                 for j, ct in enumerate(WRAP_CONTS):
                     req = j % 3 != 2
                     items.append((f"k{j}", add_wrapper(sch, ct, ["readonly", "tdreq" if req else "tdnotreq", "tdreq" if req else "tdnotreq"][j % 3]), req))
+                items.sort(key=lambda f: not f[2])
                 sch.tds.append(items)
                 fields.append(("f0", ("td", 0)))
             else:
@@ -1532,6 +1615,36 @@ def wrapper_probe_cases(rng, side: str):
             c.value_src = gen_value_src(rng, c.top, sch, 2, wire=(side == "unpack"))
             c.call_src = entry_call_src(entry, ty_src(c.top, sch), side)
             out.append(c)
+    return out
+
+
+def dialect_probe_cases(rng, side: str):
+    """systematic sweep of dialect nesting: an outer class with / without Config.dialect (no_copy list, dict, set) and
+    ADD_DIALECT_SUPPORT around a nested plain / mixin dataclass with / without its own (empty) dialect; containers whose
+    copy decision depends only on the effective no_copy_collections of the class they sit in"""
+    inner_fields = [("seq", "list", ("atom", "int")), ("map", "dict", ("atom", "str"), ("atom", "int")),
+                    ("seq", "set", ("atom", "str")), ("seq", "list", ("seq", "list", ("atom", "int")))]
+    out = []
+    for outer_d, outer_sup, inner_base, inner_d, inner_sup, call in [
+            (0, False, "plain", None, False, None), (0, False, "dict", 1, False, None), (None, False, "plain", 0, False, None),
+            (1, True, "plain", None, True, 0), (None, True, "dict", None, False, 0), (0, True, "dict", None, True, 1)]:
+        sch = Schema()
+        sch.dialects = [["list", "dict", "set"], []]
+        sch.classes = [
+            {"name": "C0", "base": "dict", "sup": outer_sup, "dialect": outer_d,
+             "fields": [("f0", ("seq", "list", ("atom", "int"))), ("g", ("dc", 1)), ("h", ("seq", "list", ("dc", 1)))]},
+            {"name": "C1", "base": inner_base, "sup": inner_sup, "dialect": inner_d,
+             "fields": [(f"f{j}", t) for j, t in enumerate(inner_fields)]}]
+        entry = {"api": "mixin", "fmt": None}
+        if call is not None:
+            entry["call"] = call
+        c = Case()
+        c.side, c.sch, c.entry, c.top, c.focus = side, sch, entry, ("dc", 0), True
+        c.src = schema_src(sch, c.top)
+        c.src_types = ""
+        c.value_src = gen_value_src(rng, c.top, sch, 2, wire=(side == "unpack"))
+        c.call_src = entry_call_src(entry, ty_src(c.top, sch), side)
+        out.append(c)
     return out
 
 
@@ -1643,6 +1756,18 @@ def oracle(ctx, c: Case):
                  replay_dict(c, {"shared_paths": describe(shared.values(), c)}, {"shared_paths": describe(exp_ids.values(), c)}),
                  {**sig_base, "kind": "missed-share", "cause": cause})
         failed = True
+    # no aliasing inside the result: a new mutable container occurs at one place only (otherwise mutating one
+    # part of the result would silently change another)
+    seen_fresh = {}
+    for pth, o in walk(c.res):
+        if is_mutable(o) and id(o) not in in_ids:
+            if id(o) in seen_fresh and seen_fresh[id(o)] != pth and not failed:
+                ctx.fail(f"{c.side}: the result of {c.call_src} holds the same new {type(o).__name__} at {seen_fresh[id(o)]} and {pth}",
+                         replay_dict(c, "new container aliased inside the result", "each new container occurs once"),
+                         {**sig_base, "kind": "result-internal-alias"})
+                failed = True
+                break
+            seen_fresh.setdefault(id(o), pth)
     # two calls: their results may have nothing mutable in common but objects of the argument (a shared default
     # object or a cached container would be hidden sharing between results)
     if c.res2 is not None:
@@ -1779,7 +1904,8 @@ def coq_wire(w, t, sch, labels) -> str:
     if k == "dc" and isinstance(w, dict):
         lab = labels[id(w)]
         c = sch.classes[t[1]]
-        kvs = "; ".join(f"((VAtom 0), {coq_wire(w[fn], ft, sch, labels)})" for fn, ft in field_order(c))
+        kvs = "; ".join(f"((VAtom 0), {'VNone' if fn in c.get('omit', ()) and fn not in w else coq_wire(w[fn], ft, sch, labels)})"
+                        for fn, ft in field_order(c))
         return f"(VMap KDict {lab} [{kvs}])"
     if k == "opt" and w is not None:
         return coq_wire(w, t[1], sch, labels)
@@ -1872,10 +1998,14 @@ def hist_case(ctx, c: Case):
     ctx.hist("top_kind", c.top[0])
     ctx.hist("n_classes", str(len(c.sch.classes)))
     ctx.hist("in_coq_grammar", str(c.sch.model))
+    if ":= " in c.value_src:
+        ctx.hist("input_aliasing", c.side)
     for k in ("final", "annotated", "newtype", "alias", "tvbound", "readonly", "tdreq", "tdnotreq"):
         if f"w:{k}" in getattr(c, "src_types", ""):
             ctx.hist("wrappers", f"{c.side}:{k}")
     ctx.hist("generator", "dialect-interplay" if getattr(c, "focus", False) else "general")
+    if any(fn == "back" for k in c.sch.classes for fn, _ in k["fields"]):
+        ctx.hist("recursive_schema", c.side)
 
 
 def shape_key(c: Case):
@@ -1921,7 +2051,12 @@ def run(ctx: vlib.Ctx):
         crashes = []       # the model is total on conforming inputs of its grammar: the library must be, too
         pend = Pending(ctx)
         attempts = 0
+        import random as _random
+        prng = _random.Random(ctx.seed * 7919 + (18 if side == "pack" else 81))      # own stream: the main one is unchanged
         probes = fixed_cases(ctx.rng, side) + union_probe_cases(ctx.rng, side) + wrapper_probe_cases(ctx.rng, side)
+        extra = dialect_probe_cases(prng, side)
+        probes = extra + probes
+        n = n + len(extra)          # the randomly generated part of the run stays what it was
         while len(cases) < n and attempts < n * 3:
             attempts += 1
             extras = ctx.rng.random() < 0.3
@@ -1991,7 +2126,7 @@ def run(ctx: vlib.Ctx):
             drop_module(c.mod)
 
 
-THEOREMS = ["C18_wrapper_transparent", "C18_share", "C18_share_unionfree", "C18_share_union_refuted",
+THEOREMS = ["C18_fresh_distinct", "C18_decode_fresh_distinct", "C18_labels_arg_or_supply", "C18_two_calls_disjoint", "C18_decode_two_calls_disjoint", "C18_wrapper_transparent", "C18_share", "C18_share_unionfree", "C18_share_union_refuted",
             "C18_decode_dialect_independent", "C18_decode_fresh", "C18_default_fresh", "C18_decode_all_fresh", "C18_decode_union_fresh", "C18_no_mutation",
             "C18_decode_no_mutation", "C18_share_partial", "C18_share_full_refuted"]
 
